@@ -639,6 +639,8 @@ func (e *c05Env) eval(t c05Task) c05Out {
 		return e.evalRetry(r, t)
 	case "crash":
 		return e.evalCrash(r, t)
+	case "reader-paused":
+		return e.evalReaderPaused(r, t)
 	case "reader":
 		return e.evalReader(r, t)
 	}
@@ -1054,6 +1056,66 @@ func c05Observe(rd *apih.Server, r *c05Req, boundary int) []c05Obs {
 	return out
 }
 
+func (e *c05Env) evalReaderPaused(r *c05Req, t c05Task) c05Out {
+	w, rd := e.w.Server, e.r.Server
+	c05Reset(w, r)
+	// other rows, so that the listing is large whatever the request does
+	var filler []*ketoapi.RelationTuple
+	for i := 0; i < 1500; i++ {
+		filler = append(filler, axID("n1", fmt.Sprintf("filler-%04d", i), "fr", fmt.Sprintf("fu-%04d", i)))
+	}
+	if _, err := w.Client().GTransact(c05Deltas(filler, nil, -1, "")); err != nil {
+		panic(fmt.Sprintf("c05: filler: %v", err))
+	}
+	w.Settle()
+	rd.Settle()
+	paused := make(chan struct{})
+	resume := make(chan struct{})
+	var count atomic.Int64
+	var once sync.Once
+	rd.Tap.SetBefore(func(_ *sqlfault.Event) error {
+		if int(count.Add(1)) == t.K {
+			once.Do(func() { close(paused) })
+			<-resume
+		}
+		return nil
+	})
+	var l axListing
+	done := make(chan struct{})
+	go func() { l = axListREST(rd.Client(), &ketoapi.RelationQuery{}, 10000); close(done) }()
+	hit := false
+	select {
+	case <-paused:
+		hit = true
+	case <-done:
+	}
+	ok, desc := c05Exec(w, r, -1, "")
+	w.Settle()
+	close(resume)
+	<-done
+	rd.Tap.SetBefore(nil)
+	rd.Settle()
+	out := c05Out{Hit: hit, Detail: map[string]any{"writer_reported_ok": ok, "writer_response": c05Short(desc), "reader_paused_before_statement": t.K}}
+	if l.Err == "" {
+		// without the filler rows the listing must be the request's before-state or its after-state
+		rest := map[refsem.TupleKey]int{}
+		for k, n := range l.Multiset {
+			if !strings.Contains(string(k), `"filler-`) {
+				rest[k] = n
+			}
+		}
+		if state := c05Classify(r, rest); state == "neither" {
+			out.Sig = fmt.Sprintf("reader-saw-partial-state:%s:reader-paused", r.Kind)
+			out.What = fmt.Sprintf("a listing (page size 10000, %d rows) was paused before its statement %d while %s committed: apart from the 1500 unrelated rows it shows neither the state before nor the state after the request; diff to before: %s", len(l.Items), t.K, r.ID, c05Short(refsem.DiffMultiset(rest, r.before, false)))
+		}
+	} else if !c05Refused(l.Err) {
+		out.Detail["reader_error"] = c05Short(l.Err)
+	}
+	// leave the store as c05Reset expects it
+	w.Truncate()
+	return out
+}
+
 func (e *c05Env) evalReader(r *c05Req, t c05Task) c05Out {
 	w, rd := e.w.Server, e.r.Server
 	if t.Variant == "memory" {
@@ -1375,6 +1437,20 @@ func TestC05(t *testing.T) {
 					tasks = append(tasks, c05Task{Part: "reader", Req: r.ID, I: i, J: j, Variant: v})
 				}
 			}
+		}
+	}
+	runTasks(tasks)
+
+	// (d') the READER is the one that is paused: a listing of a large store (1500 other rows, page size 10000) is
+	// stopped before each of its own statements while a complete multi-relationship request commits; the listing
+	// must contain all or none of the request's inserts
+	tasks = nil
+	for _, r := range order {
+		if r.Kind != "rest-patch" && r.Kind != "grpc-transact" || r.NI < 100 || r.NI > 3001 || r.ND != 0 {
+			continue
+		}
+		for k := 1; k <= 6; k++ {
+			tasks = append(tasks, c05Task{Part: "reader-paused", Req: r.ID, K: k, Variant: "wal"})
 		}
 	}
 	runTasks(tasks)
